@@ -1,7 +1,7 @@
 (** Property C03: conditions are AND within a list, OR across lists; an unmatched entry is as good as absent,
     and no argument value can make a rule written for another syscall match. *)
 From Coq Require Import List NArith Bool String.
-From Seccomp Require Import Words Result Machine Policy Spec CompileProofs CoreTheorems CoreExamples Codegen CodegenTemplates.
+From Seccomp Require Import Words Result Machine Policy Spec CompileProofs CoreTheorems CoreExamples Codegen CodegenTemplates ValidationTemplates.
 From Gen Require Import GenCodegen.
 Import ListNotations.
 Open Scope N_scope.
@@ -69,6 +69,19 @@ Proof.
   apply expected_entry_is_gen_ent; [|exact H]. apply chain_ok_sound. vm_compute. reflexivity.
 Qed.
 Print Assumptions C03_source_entry_is_the_model.
+
+(** The entries themselves - which lists a syscall ends up with - are built by SyscallGroup.toSyscallsWithConditions:
+    every names_with_args item of a syscall adds its list as ONE MORE alternative of that syscall's entry, whatever the
+    lists already there (an alternative is never dropped, merged into another or reordered). The two loops of that
+    function are regenerated from filter.go on every run as decision templates; their meaning is the model's
+    [to_syscalls], for every architecture record and group (the same regenerated templates as C07). *)
+Theorem C03_source_merge_is_the_model : forall ai g,
+  to_syscalls_by_template ai names_loop_template nwc_loop_template g = Some (to_syscalls ai g).
+Proof.
+  intros ai g. change names_loop_template with expected_names_template. change nwc_loop_template with expected_nwc_template.
+  apply expected_templates_are_to_syscalls.
+Qed.
+Print Assumptions C03_source_merge_is_the_model.
 
 (** every entry toSyscallsWithConditions produces is of that kind (a conditional entry has at least one list) *)
 Theorem C03_validated_entries_nondegenerate : forall e, entry_ok e -> entry_nondegenerate e.
